@@ -86,7 +86,39 @@ var pssGroup = sGroup{
 	},
 }
 
-var sGroups = []*sGroup{&pssGroup}
+// BasicSlabStorage: identifiers at BYTE level (AtreeModel/SlabIdBytes.lean), as in its hand-written model
+// AtreeModel/SlabIdStorages.lean (`SlabIdB.Basic`)
+var basicGroup = sGroup{
+	Recv:     "BasicSlabStorage",
+	TypeVars: []string{"σ", "ε"},
+	Types: withBase(map[string]sTypeInfo{
+		"SlabID":          {Lean: "SlabIdB.SlabIDB", Zero: "SlabIdB.SlabIDUndefined", Kind: "eq"},
+		"Address":         {Lean: "SlabIdB.Address", Zero: "SlabIdB.AddressUndefined", Kind: "eq"},
+		"SlabIndex":       {Lean: "SlabIdB.SlabIndex", Zero: "SlabIdB.SlabIndexUndefined", Kind: "eq"},
+		"Slab":            {Lean: "Option σ", Zero: "none", Kind: "opt", Payload: "σ", Prefix: "Slab"},
+		"error":           {Lean: "Option ε", Zero: "none", Kind: "opt", Payload: "ε", Prefix: "error"},
+		"cbor.EncMode":    {Kind: "drop"},
+		"cbor.DecMode":    {Kind: "drop"},
+		"StorableDecoder": {Kind: "drop"},
+		"TypeInfoDecoder": {Kind: "drop"},
+	}),
+	Methods: map[string]sView{
+		"SlabIndex.Next": {Lean: "SlabIdB.SlabIndex.next {X}", Type: "SlabIndex"}, // translated by the integer engine too: Trans.SlabIndex_Next
+	},
+	FuncViews: map[string]sView{
+		"NewSlabID": {Lean: "(SlabIdB.newSlabID {0} {1})", Type: "SlabID"},
+	},
+	Targets: []sTarget{
+		{Func: "BasicSlabStorage.GenerateSlabID", Lean: "BasicSlabStorage_GenerateSlabID"},
+		{Func: "BasicSlabStorage.RetrieveIfLoaded", Lean: "BasicSlabStorage_RetrieveIfLoaded"},
+		{Func: "BasicSlabStorage.Retrieve", Lean: "BasicSlabStorage_Retrieve"},
+		{Func: "BasicSlabStorage.Store", Lean: "BasicSlabStorage_Store"},
+		{Func: "BasicSlabStorage.Remove", Lean: "BasicSlabStorage_Remove"},
+		{Func: "BasicSlabStorage.Count", Lean: "BasicSlabStorage_Count"},
+	},
+}
+
+var sGroups = []*sGroup{&pssGroup, &basicGroup}
 
 const sPrelude = `-- GENERATED by harness/cmd/gotrans (stateful engine) from storage.go on every check run. Do not edit.
 -- Go -> Lean translation of the SEQUENTIAL part of the storage state machine: the receiver is a record threaded
@@ -94,6 +126,7 @@ const sPrelude = `-- GENERATED by harness/cmd/gotrans (stateful engine) from sto
 -- untranslated package functions are parameters (` + "`env`" + `).  Subset, conventions and tables: harness/cmd/gotrans/stateful.go,
 -- stateful_targets.go.  Equivalence with the hand-written model: AtreeProofs/Props/TransStorage.lean.
 import AtreeModel.Basic
+import AtreeModel.SlabIdBytes
 set_option linter.unusedVariables false
 namespace Atree.Gen.TransSt
 open Atree
